@@ -64,12 +64,35 @@ def funnel(rep, F, v, cls):
     rep.obligation(len(validating) >= 1, lambda: C.Finding("C13", "R-MPT.funnel", cls, "no constructor of %s calls AssignmentEvaluator::run" % cls, None, None))
     # (a') the validation is the last thing that happens to the coefficients: nothing in a constructor body touches the
     # storage after the validating call, and a delegating constructor's body does not touch it at all
-    def touches(x):
+    def storage(x):
         for y in A.walk(x):
             if y.get("k") == "MemberExpr" and y.get("name") == "data_":
                 return y
             if A.is_call(y) and A.short(y.get("fn")) in ("coeffs", "coeffs_nonconst", "data") and str(y.get("cls", "")).startswith("manif::"):
                 return y
+        return None
+
+    def touches(x):
+        """a *write* access to the coefficient storage: assignment / compound assignment / comma-initialiser with the
+        storage (or a block of it) on the left, or a mutating member call on it (normalize, setZero, ...)"""
+        for y in A.walk(x):
+            k_ = y.get("k")
+            if k_ in ("BinaryOperator", "CompoundAssignOperator") and str(y.get("op", "")).endswith("=") and y.get("op") not in ("==", "!=", "<=", ">=") and y.get("ch"):
+                h = storage(y["ch"][0])
+                if h is not None:
+                    return h
+            if k_ == "CXXOperatorCallExpr" and y.get("op") in ("=", "+=", "-=", "*=", "/=", "<<") and y.get("ch"):
+                ch = y["ch"]
+                h = storage(ch[1] if len(ch) > 1 else ch[0])
+                if h is not None:
+                    return h
+            if k_ == "CXXMemberCallExpr" and not y.get("cmeth"):
+                fn_, obj_, _a = A.call_parts(y)
+                nm = A.short(fn_) if fn_ else ""
+                if nm in ("normalize", "setZero", "setIdentity", "setRandom", "setConstant", "fill", "swap", "quat", "normalized_inplace") and obj_ is not None:
+                    h = storage(obj_) if nm != "quat" else y
+                    if h is not None or nm in ("normalize", "setIdentity", "setRandom", "quat"):
+                        return h or y
         return None
     for f in ctors:
         if f.get("copyctor") or f.get("movector"):
@@ -86,7 +109,7 @@ def funnel(rep, F, v, cls):
         sig = ", ".join(p.get("cty", "?")[:40] for p in f["params"])
         rep.obligation(hit is None, lambda f=f, sig=sig, hit=hit: C.Finding(
             "C13", "R-MPT.funnel-last", "%s(%s)" % (f["name"], sig),
-            "the constructor accesses the coefficient storage (line %s) after the validating step (AssignmentEvaluator::run / the delegation): what is stored is no longer what was supplied and checked" % hit.get("ln"),
+            "the constructor writes the coefficient storage (line %s) after the validating step (AssignmentEvaluator::run / the delegation): what is stored is no longer what was supplied and checked" % hit.get("ln"),
             f["file"], hit.get("ln")))
     return n
 
@@ -325,7 +348,7 @@ def run(args):
     rep.observations.append("the derived-class operator=(const Eigen::MatrixBase&) (macro MANIF_GROUP_ASSIGN_OP) hides LieGroupBase::operator=(MatrixBase) and does not validate; the property speaks of construction only")
     rep.rules = [
         "C13.a R-MPT.funnel: every constructor of SO2..SGal3 that takes rotation data from outside delegates (transitively) to the constructor that calls AssignmentEvaluator::run",
-        "C13.a' R-MPT.funnel-last: in every constructor the validating step (AssignmentEvaluator::run, or the delegation to a constructor that has it) is the last access to the coefficient storage",
+        "C13.a' R-MPT.funnel-last: in every constructor the validating step (AssignmentEvaluator::run, or the delegation to a constructor that has it) is the last write to the coefficient storage",
         "C13.b/c R-ASSERT: with assertions enabled each acceptance test (6 AssignmentEvaluatorImpl + quat setters) is `!( |norm(slice) - 1| < Constants::eps )` -> raise<invalid_argument>; with NDEBUG no such raise exists in the evaluators, setters or constructors (both configurations analysed from the same tree)",
         "C13.d R-SLICE: the slice the assertion measures == the slice normalize() rescales == the asSO3() view (3-D) / contains real(), imag() (2-D)",
         "C13.d R-TABLE.roundtrip (exact): constructing from coefficient-level quantities and reading translation()/quat()/x()...t()/linearVelocity() gives back exactly the supplied symbols",
